@@ -115,6 +115,7 @@ structure Th where
   wFunc : Nat := 0
   wArg : Nat := 0
   named : Bool := false        -- wrapper->name still attached (freed at the top of thread_fn)
+  hoSeq : Nat := 0             -- ghost: position in the order in which managed threads handed themselves over
   copyId : Option Nat := none  -- wrapper->thread_copy.thread_id, written by the thread itself at the top of thread_fn
   rErr : Nat := 0
   rVal : Nat := 0
@@ -146,6 +147,7 @@ structure State where
   waitCtr : Nat := 0
   hstate : Nat → HState := fun _ => .notCreated
   wLive : Nat := 0      -- heap blocks: `struct thread_wrapper`s and the name strings attached to them
+  hoCtr : Nat := 0      -- ghost: number of hand-overs so far
   misuse : Nat := 0     -- pthread_join calls on an id that is not the thread's (ESRCH)
   cbLive : Nat := 0
   log : List Ev := []
@@ -334,7 +336,8 @@ def exec (P : Prog) (s : State) (t : Nat) (i : Instr) (rest : List Instr) : Opti
       ([.unlock, .joinAndFree s.pending] ++ (if done then [Instr.jaRet ok me.rSnap] else [Instr.jaLoop]) ++ rest))
   | .jaRet ok snap => some (pushLog (cont s t me rest) (.joinAllRet t ok snap))
   | .pjaSwapPush =>
-    some (cont { s with pending := [t] } t { me with status := if me.status = .atexitDone then .handedOver else me.status }
+    some (cont { s with pending := [t], hoCtr := s.hoCtr + 1 } t
+      { me with status := if me.status = .atexitDone then .handedOver else me.status, hoSeq := s.hoCtr + 1 }
       ([.unlock, .joinAndFree s.pending] ++ rest))
 
 def exitStep (s : State) (t : Nat) : State :=
@@ -411,11 +414,17 @@ structure WF (P : Prog) : Prop where
 def AllFinished (P : Prog) (s : State) : Prop :=
   ∀ k, k < P.n → (s.th k).status = .notCreated ∨ (s.th k).status = .exited ∨ (s.th k).status = .joined
 
+/-- `launch k …` occurs in the body of slot `j` -/
+def LaunchIn (P : Prog) (j k : Nat) : Prop := ∃ pin nf nm, Action.launch k pin nf nm ∈ P.body j
+
 /-- programs for the progress property: only the main thread calls join-all / sets the timeout (as
 `aws_common_library_clean_up` does), and a manual thread is joined at most once, by the thread that launched it -/
 structure WFProgress (P : Prog) : Prop extends WF P where
   joinAllMain : ∀ k, k ≠ 0 → Action.joinAll ∉ P.body k
   joinOnce : ∀ k, ((List.range P.n).flatMap (fun j => (P.body j).filter (· == Action.join k))).length ≤ 1
   launchOnce : ∀ k, ((List.range P.n).flatMap (fun j => (P.body j).filter (fun a => match a with | .launch k' _ _ _ => k' == k | _ => false))).length ≤ 1
+  /-- a manual thread is joined only by the thread that launches it (no `pthread_join` cycles among user threads:
+      two threads joining each other deadlock in plain pthreads as well) -/
+  joinByLauncher : ∀ j k, j < P.n → Action.join k ∈ P.body j → LaunchIn P j k
 
 end AwsVerif.Threads
